@@ -1,5 +1,7 @@
+#![allow(dead_code)]
 #[macro_use]
 mod engine;
+mod exp;
 mod gens;
 mod models;
 mod props;
@@ -35,6 +37,8 @@ macro_rules! dispatch {
         match $id {
             "C09" => $f(&props::c09::C09, $($arg),*),
             "C14" => $f(&props::c14::C14, $($arg),*),
+            "C06" => $f(&props::c06::C06, $($arg),*),
+            "C15" => $f(&props::c15::C15, $($arg),*),
             _ => {
                 eprintln!("unknown property {}", $id);
                 2
@@ -76,6 +80,11 @@ fn main() {
             let code = dispatch!(id, replay_property, &ctx, &path);
             cleanup_tmp(&ctx);
             std::process::exit(code);
+        }
+        "exp-reopen" => {
+            let _ctx = make_ctx("exp", Tier::Quick, false);
+            exp::reopen(args[2].parse().unwrap(), args[3].parse().unwrap());
+            cleanup_tmp(&_ctx);
         }
         _ => usage(),
     }
